@@ -290,6 +290,12 @@ def rule_CP(run: Run) -> RuleResult:
                 if not any("CacheGetFailure" in g or "CacheFailure" in g or g in ("Exception",) for g in e.guards):
                     ok_guard = False
                     d_guard = f"line {e.line}: CacheGetRequest(...).run() outside try/except CacheGetFailure"
+                if e.via:
+                    # issued inside the evaluate() of another expression: the request wrapper of that expression turns the backend's
+                    # CacheGetFailure into an EvaluationError before it reaches the handler here, which then no longer matches
+                    ok_guard = False
+                    d_guard = (f"line {e.line}: the read is issued inside {e.via[-1]}.evaluate(): its failure arrives wrapped in an EvaluationError, "
+                               "not as the CacheGetFailure the fall-through handler catches")
                 if e.failed and p.status == "ret" and any(x.kind == "op" and x.op == "evaluate" and not x.failed for x in p.events):
                     ok_fall = True
         if p.status == "ret":
@@ -1067,4 +1073,58 @@ def rule_RK(run: Run) -> RuleResult:
     res.count("value-walk functions", len(judged))
     if not judged:
         raise AnalysisError("R-RK: no function tests the kind of the looked-up value (anchor vanished)")
+    # ... and the same holds wherever else in the library a provided option value is asked whether it is a string (in order to decide
+    # that it "cannot be a template" and answer with the key alone): a function that tests a looked-up value for str tests it for the
+    # kinds resolve() recurses into as well — or hands it to the function that does
+    probe = ast.parse("def f(key, options):\n    v = get_dotted_key(key, options)\n    if not isinstance(v, str):\n        return {key}\n    return Template(v).keys(options)\n").body[0]
+    if not _str_only_value_tests(probe, followed):
+        raise AnalysisError("R-RK: the str-only detector no longer sees its positive example")
+    from .model import iter_functions
+    n_f = 0
+    for m, cls_node, fn, q in iter_functions(run.repo):
+        if m.name.startswith("labrea.mypy"):
+            continue
+        n_f += 1
+        for line_, what in _str_only_value_tests(fn, followed):
+            res.add(f"{q}:a provided value tested for str is tested for the kinds resolve() follows too", False, m.relpath, line_, what, nec)
+    res.add("labrea:every test of a provided option value for str comes with the tests for the container kinds", True, "labrea/option.py", 1,
+            f"{n_f} functions inspected", nec, trivial=True)
     return res
+
+
+def _str_only_value_tests(fn, followed) -> List[tuple]:
+    """[(line, what)] — ``isinstance(v, str)`` on a local bound to a looked-up option value (get_dotted_key / options[...] / options.get /
+    resolve) in a function that never tests the same local for the container kinds resolve() follows (list, Mapping/dict) and never hands
+    it to another function of the library (which may do so)."""
+    origins = {}
+    for st in astu.walk_no_nested(fn):
+        if isinstance(st, (ast.Assign, ast.AnnAssign)) and getattr(st, "value", None) is not None:
+            v = st.value
+            looked = (isinstance(v, ast.Call) and astu.short_name(v) in ("get_dotted_key", "resolve")) or \
+                (isinstance(v, ast.Call) and isinstance(v.func, ast.Attribute) and v.func.attr == "get" and "options" in ast.unparse(v.func.value).lower()) or \
+                (isinstance(v, ast.Subscript) and "options" in ast.unparse(v.value).lower())
+            if looked:
+                for t in (st.targets if isinstance(st, ast.Assign) else [st.target]):
+                    if isinstance(t, ast.Name):
+                        origins[t.id] = st.lineno
+    if not origins:
+        return []
+    out = []
+    CONTAINERS = {"list", "tuple", "List", "Sequence", "Mapping", "dict", "Dict", "MutableMapping", "Iterable", "Collection"}
+    for name, ln in origins.items():
+        str_tests, container_tests, handed_on = [], False, False
+        for x in astu.walk_no_nested(fn):
+            if isinstance(x, ast.Call) and isinstance(x.func, ast.Name) and x.func.id == "isinstance" and len(x.args) == 2 and isinstance(x.args[0], ast.Name) and x.args[0].id == name:
+                kinds = {ast.unparse(k_).split(".")[-1] for k_ in (x.args[1].elts if isinstance(x.args[1], ast.Tuple) else [x.args[1]])}
+                if kinds == {"str"}:
+                    str_tests.append(x.lineno)
+                if kinds & CONTAINERS:
+                    container_tests = True
+            elif isinstance(x, ast.Call) and any(isinstance(a_, ast.Name) and a_.id == name for a_ in x.args) and not (
+                    isinstance(x.func, ast.Name) and x.func.id in ("isinstance", "str", "repr", "len", "type", "bool", "find_template_keys", "hash", "id", "print", "Template")) \
+                    and not (isinstance(x.func, ast.Attribute) and x.func.attr in ("add", "append", "format", "debug", "info")):
+                handed_on = True
+        if str_tests and not container_tests and not handed_on:
+            out.append((str_tests[0], f"`isinstance({name}, str)` is the only kind test of the value looked up at line {ln}: a list or mapping holding "
+                                      "templated strings is taken for free of references (its keys are answered without the keys it refers to)"))
+    return out
